@@ -437,7 +437,16 @@ class TaskDispatcher(object):
         https://docs.aws.amazon.com/step-functions/latest/dg/limits.html
         We do the test here as we have the raw JSON string handy.
         """
-        if len(message_body) > MAX_DATA_LENGTH:
+        too_long = len(message_body) > MAX_DATA_LENGTH
+        if too_long:
+            # The body holds the UTF-8 bytes of the JSON text and a non-ASCII
+            # character takes several of them: count the characters.
+            try:
+                too_long = len(message_body.decode("utf8")) > MAX_DATA_LENGTH
+            except ValueError:
+                pass
+
+        if too_long:
             result = {"errorType": "States.DataLimitExceeded"}
         else:
             try:
